@@ -162,16 +162,16 @@ def bound_spellings(rep):
                         try:
                             bd = w.build(cfg)
                             res.append((bd.AS, bd.CP, _norm_bounds(bd.src, v)))
+                            res[-1] = res[-1][2:]
                         except SK.Rejected as ex:
                             res.append(('rejected',))
                     n += 1
                     ok = res[0] == res[1]
                     rep.oblige(ok)
                     if not ok:
-                        d = 'flags' if res[0][:2] != res[1][:2] else 'emitted code'
                         rep.add(Finding('BOUND-spellings', 'List', f'{which}={a!r}/{b!r}',
-                                        f'List({which}={a!r}) and List({which}={b!r}) differ in {d} (child {st}, other '
-                                        f'bound {other!r}): AS/CP {res[0][:2]} vs {res[1][:2]}',
+                                        f'List({which}={a!r}) and List({which}={b!r}) emit different code (child {st}, '
+                                        f'other bound {other!r})',
                                         'sourcer/expressions/list.py:List', {'int': res[0], 'str': res[1]}))
     rep.count('bound spelling pairs compared', n)
     rep.floor('bound spelling pairs compared', n, 50)
@@ -214,7 +214,38 @@ def spelling_pairs(rep):
         ('f <| a / Apply(apply_left)', N('Infix', left=a, operator='<|', right=b), call('Apply', a, b, apply_left=T)),
         ('e where p / Where(e, p)', N('Infix', left=a, operator='where', right=b), call('Where', a, b)),
     ]
+    SEPD = dict(discard_separators=True, allow_empty=True, require_separator=False)
+
+    def sep(trailer):
+        return ('Sep', ('allow_empty', True), ('allow_trailer', trailer), ('discard_separators', True),
+                ('expr', canon(a)), ('require_separator', False), ('separator', canon(b)))
+    absolute = {
+        'e? / Opt(e)': ('Opt', ('expr', canon(a))),
+        'e* / List(e)': ('List', ('expr', canon(a)), ('max_len', None), ('min_len', None)),
+        'e+ / Some(e)': ('List', ('expr', canon(a)), ('max_len', None), ('min_len', '1')),
+        'a >> b / Right(a, b)': ('Discard', ('discard_left', True), ('expr1', canon(a)), ('expr2', canon(b))),
+        'a << b / Left(a, b)': ('Discard', ('discard_left', False), ('expr1', canon(a)), ('expr2', canon(b))),
+        'a | b / Choice(a, b)': ('Choice', ('exprs', (canon(a), canon(b)))),
+        'a // b / Sep(a, b)': sep(False),
+        'a /? b / Sep(a, b, allow_trailer=True)': sep(True),
+        'a |> f / Apply': ('Apply', ('apply_left', False), ('expr1', canon(a)), ('expr2', canon(b))),
+        'f <| a / Apply(apply_left)': ('Apply', ('apply_left', True), ('expr1', canon(a)), ('expr2', canon(b))),
+        'e where p / Where(e, p)': ('Where', ('expr', canon(a)), ('predicate', canon(b))),
+    }
     for label, t1, t2 in pairs:
+        if label in absolute:
+            try:
+                got = canon(create(t1))
+            except M.MetaRaise as e:
+                got = f'raises {e}'
+            rep.count('operator forms compared with their documented meaning')
+            rep.oblige(got == absolute[label])
+            if got != absolute[label]:
+                rep.add(Finding('MAP-spellings', 'sourcer/translator.py:_create_parsing_expression',
+                                label.split(' / ')[0] + ' (meaning)',
+                                f'{label.split(" / ")[0]} is translated to {got}; its documented meaning is '
+                                f'{absolute[label]}',
+                                'sourcer/translator.py:_create_parsing_expression + sourcer/expressions/sugar.py'))
         res = []
         for t in (t1, t2):
             try:
